@@ -284,6 +284,31 @@ def c03_7(ctx):
     return out
 
 
+def _sec_variant(fn, cfg, n, terms, prefix, start_node, mapping, ctx, mod):
+    """one (prefix constant, controlling parity edge, coordinates) row of the sec() mapping"""
+    par = None
+    seen = set()
+    work = [start_node]
+    while work:
+        x = work.pop()
+        for p, label in cfg.pred[x]:
+            pn = cfg.nodes[p]
+            if pn.kind == "test" and dotted(pn.ast) == "self.parity":
+                par = label
+            elif p not in seen and pn.kind in ("stmt", "join"):
+                seen.add(p)
+                work.append(p)
+    coords = []
+    for t in terms[1:]:
+        ex = expand(fn, n.id, t)
+        if isinstance(ex, ast.Call) and call_name(ex) == "int_to_big_endian" and Folder(ctx.repo, mod.name).fold(ex.args[1]) == 32:
+            d = dotted(ex.args[0]) or ""
+            coords.append(d.replace("self.", ""))
+        else:
+            coords.append("?" + ast.unparse(ex))
+    mapping[prefix] = (par, coords)
+
+
 def c03_8(ctx):
     """parity → prefix mapping identical in sec() and parse_sec()"""
     out = []
@@ -303,8 +328,24 @@ def c03_8(ctx):
             else:
                 terms.append(e)
         flat(v)
-        if not (isinstance(terms[0], ast.Constant) and isinstance(terms[0].value, bytes)):
+        # the prefix is a byte constant, or a local assigned byte constants on the edges of a parity test
+        variants = []
+        if isinstance(terms[0], ast.Constant) and isinstance(terms[0].value, bytes):
+            variants.append((terms[0].value, n.id))
+        elif isinstance(terms[0], ast.Name):
+            rd0 = rd_of(fn)
+            for d in sorted(rd0.reaching(n.id, terms[0].id)):
+                g = rd0.gen.get(d, {}).get(terms[0].id)
+                if g and g[0] == "val" and isinstance(g[1], ast.Constant) and isinstance(g[1].value, bytes):
+                    variants.append((g[1].value, d))
+                else:
+                    variants = []
+                    break
+        if not variants:
             raise AnalysisError("sec(): return `%s` does not start with a constant prefix" % ast.unparse(v))
+        for prefix, start_node in variants:
+            _sec_variant(fn, cfg, n, terms, prefix, start_node, mapping, ctx, mod)
+        continue
         prefix = terms[0].value
         # controlling parity edge
         par = None
